@@ -1,17 +1,22 @@
-"""C11 — exactly one reply per admitted query, whatever upstreams do (work in progress)."""
+"""C11 — exactly one reply per admitted query, whatever upstreams do."""
 
+# every sync.Pool of these packages becomes a deterministic LIFO (vsync.PoolLIFO): the object
+# one request releases is always what the next request gets
 _SRV_RW = {"server": ["sync"], "middleware": ["sync"], "middleware/edns": ["sync"], "middleware/cache": ["sync"],
            "internal/wire": ["sync"], "internal/cache": ["sync"], "internal/dnsclient": ["sync"]}
+_SRV_H = {"server": ["zz_verif_c11_*.go"], "middleware": ["zz_verif_export.go"]}
 
 CHECK = {
     "level": "model_checking",
-    "engines": ["sched", "event"],
-    "technique": "wip",
-    "level_text": "wip",
-    "level_note": "wip",
-    "rule": "wip",
-    "assumptions": [],
-    "bounds": {"quick": "", "thorough": ""},
+    "engines": ["sched", "event", "space"],
+    "technique": "preemption-bounded schedule DFS of the real dedup primitive under the controlled scheduler; exhaustive operation sequences on the real response writer against a one-bit model; event-level exploration (all event orders, replay from a fresh world) of the real Cache.ServeDNS dedup loop with exact goroutine-snapshot quiescence; scripted-connection exploration of the real TCP engine over frame sequences x read segmentations x close points; single-goroutine step-order exploration of the real UDP engine over real loopback sockets with sentinel-delimited observation",
+    "level_text": "waitgroup: every schedule (<=2/3 preemptions) of 3 threads running the cache's leader/follower protocol (JoinGeneration -> leader works then DoneGeneration; follower waits for the generation, re-checks, Regroups at most once) plus a late DoneGeneration of an older timed-out leader, on the real internal/waitgroup compiled against vsync: one leader per generation, followers released only by their own leader, a cohort regroups onto one generation, an old leader never ends/unregisters a newer generation, no deadlock, nothing registered or open at quiescence. writer: every sequence of <=3/5 operations {WriteMsg, Write, Write(undecodable), WriteWire, BeginWire+CommitWire, BeginWire+AbortWire} x {direct-pack, leasing transport, failing transport}: exactly the first successful payload reaches the transport, later writes are refused and send nothing, an abort sends nothing and permits a later write, a recycled chain accepts the next client's reply. dedup: all orders (depth 6/8) of {identical client arrives, different-name client arrives, release a parked downstream resolution with answer/SERVFAIL/request-local failure/no write, cancel a waiting follower, expire a waiting follower's deadline} on the real cache + gated stub, with and without an expired RFC 9520 failure entry, message-born and wire-born entry: every client gets exactly one reply (none only if its own context was cancelled or its own downstream wrote nothing), correct ID/question, nobody stays parked after the drain, no client is failed by another client's request-local failure or deadline (except the documented probe-budget shed), no second concurrent probe/leader, at most one regroup. tcp: <=3/4 pipelined frames from {hit, miss, malformed body, QR=1, NOTIFY, sub-header length, 2048/2049/4200-byte queries, handler panic} x every segmentation of short streams (all cut positions) / all cuts at structural offsets for long ones x every close point: output is whole frames, one per completely delivered admitted query, in order, own ID/question/marker; replies are on the wire whenever the connection waits at a frame boundary; afterwards all tokens home, no connection registered, no slab leased. udp: <=3/4 datagrams from 2-3 sockets x admission cap 1-3 x inline on/off x every legal order of the engine's own reader/worker steps: each admitted query's sender gets exactly one datagram, ignored/shed ones none, inFlight==0 and leases == reader holdover at the end.",
+    "level_note": "Trusted: vsync models sync (sequential consistency); in the waitgroup unit the follower's channel wait is modelled as sched.Block on generation.ctx.Err()!=nil and timed-out generations are hand-built with an expired deadline context; the 'replaced' start state (an old unregistered generation next to a live one) is built by hand because Regroup's tombstone rule makes it unreachable through the API today. dedup: quiescence = a stop-the-world goroutine snapshot in which every client goroutine is finished, blocked in the stub gate, or blocked in the select of Cache.ServeDNS and no other goroutine is runnable; the order in which several followers woken by one DoneGeneration run is not enumerated (clients woken together are symmetric; that concurrency is what the waitgroup unit covers). tcp: the connection is an in-memory net.Conn whose Read parks on a harness gate; deadlines are no-ops. udp: the harness plays the kernel for recvmmsg (fills the armed iovec/sockaddr/length) and calls the engine's real step functions from one goroutine; the portable reader, the bodies of run()/worker() themselves, overflow goroutines and wildcard pktinfo are not driven. Upstream fault scripts against the full resolver (authsim), DoH/DoQ transports and real-time latency bounds are not part of this check.",
+    "rule": "cases are enumerated simplest-first per unit as described in level_text; 'states' = scenario x observable outcome (waitgroup), configuration x result (writer), symmetric role multiset + store sizes (dedup), frame sequence x class of every read boundary (tcp), datagram sequence x cap x inline x full schedule (udp); 'nontrivial' = waitgroup scenarios with more than one observable outcome, writer sequences of >=2 operations, dedup states with at least one parked follower, tcp cases with >=2 frames and a read boundary strictly inside a frame, udp schedules with >=2 datagrams",
+    "assumptions": ["sequential consistency for the scheduled unit", "loopback UDP preserves order per socket pair (used only to delimit observations with sentinels)",
+                    "real elapsed time per run is far below the 15 s generation timeout, the 2 s TCP query wait and the 30 s query timeout"],
+    "bounds": {"quick": "waitgroup: 50 scenarios, preemption bound 2; writer: length<=3 x 8 configs; dedup: depth 6, 3 identical clients + 1 other; tcp: all cuts (<=2) on <=2 small frames, structural cuts (<=2) on <=3 frames of 10 kinds; udp: <=3 datagrams, 2 clients, cap 1-2",
+               "thorough": "waitgroup: preemption bound 3; writer: length<=5; dedup: depth 8, 4 identical clients (time-capped); tcp: <=3 cuts all positions, <=5 structural cuts, 4 frames (time-capped); udp: <=4 datagrams, 3 clients, cap 1-3 (time-capped)"},
     "units": {
         "waitgroup": {"pkg": "internal/waitgroup", "run": "TestVerifC11WG",
                       "harness": {"internal/waitgroup": ["zz_verif_c11_*.go"]},
@@ -23,10 +28,12 @@ CHECK = {
         "dedup": {"pkg": "middleware/cache", "run": "TestVerifC11Dedup",
                   "harness": {"middleware/cache": ["zz_verif_common_test.go", "zz_verif_c11_*.go"], "middleware": ["zz_verif_export.go"]},
                   "stub_tests": ["middleware/cache"], "gomaxprocs": 2,
-                  "budget_s": {"quick": 60, "thorough": 500}},
-        "tcp": {"pkg": "server", "run": "TestVerifC11TCP",
-                "harness": {"server": ["zz_verif_c11_*.go"], "middleware": ["zz_verif_export.go"]},
+                  "budget_s": {"quick": 60, "thorough": 240}},
+        "tcp": {"pkg": "server", "run": "TestVerifC11TCP", "harness": _SRV_H,
                 "rewrite": _SRV_RW, "gomaxprocs": 2,
-                "budget_s": {"quick": 60, "thorough": 600}},
+                "budget_s": {"quick": 60, "thorough": 200}},
+        "udp": {"pkg": "server", "run": "TestVerifC11UDP", "harness": _SRV_H,
+                "rewrite": _SRV_RW, "gomaxprocs": 2,
+                "budget_s": {"quick": 60, "thorough": 200}},
     },
 }
